@@ -501,8 +501,44 @@ func (r *run) globalAddr(g *ssa.Global) *value {
 	r.globals[g] = p
 	if g.Pkg != nil && !r.eng.isRepoPkg(g.Pkg) && !strings.HasPrefix(g.Name(), "init$") {
 		r.lazyInit(g.Pkg)
+		if msg, failed := r.initFailed[g.Pkg]; failed {
+			// the package initialiser is not executable: sentinel errors are
+			// materialised as distinct objects, anything else is inconclusive
+			if v, isIface := (*p).(iface); isIface && v.t == nil && types.Identical(deref(g.Type()), types.Universe.Lookup("error").Type()) {
+				*p = r.newError(mkStr(g.Pkg.Pkg.Path() + "." + g.Name()))
+				r.note("sentinel error %s.%s materialised as a distinct object (package initialiser not executable)", g.Pkg.Pkg.Path(), g.Name())
+			} else if isZeroValue(*p) {
+				panic(engineError{"global " + g.Pkg.Pkg.Path() + "." + g.Name() + " read, but the package initialiser is not executable: " + msg})
+			}
+		}
 	}
 	return p
+}
+
+func isZeroValue(v value) bool {
+	switch v := v.(type) {
+	case *Term:
+		return v.IsConst() && v.Val == 0
+	case sval:
+		return v.Len() == 0
+	case fval:
+		return v == 0
+	case structure:
+		for _, f := range v {
+			if !isZeroValue(f) {
+				return false
+			}
+		}
+		return true
+	case array:
+		for _, f := range v {
+			if !isZeroValue(f) {
+				return false
+			}
+		}
+		return true
+	}
+	return isNilValue(v)
 }
 
 // lazyInit runs the initialiser of an external package the first time one of
@@ -522,15 +558,19 @@ func (r *run) lazyInit(pkg *ssa.Package) {
 	}
 	r.forceInit[pkg] = true
 	savedDepth := r.depth
+	savedStack := len(r.stack)
 	func() {
 		defer func() {
 			r.depth = savedDepth
+			r.stack = r.stack[:savedStack]
 			if p := recover(); p != nil {
 				if ee, ok := p.(engineError); ok {
-					panic(engineError{"lazy init of " + pkg.Pkg.Path() + ": " + ee.msg})
+					r.initFailed[pkg] = ee.msg
+					return
 				}
 				if tp, ok := p.(targetPanic); ok {
-					panic(engineError{"lazy init of " + pkg.Pkg.Path() + " panicked: " + tp.String()})
+					r.initFailed[pkg] = "panicked: " + tp.String()
+					return
 				}
 				panic(p)
 			}
